@@ -15,6 +15,10 @@ V1b == Vrf("v1", "65000:101", 111, {"rt3"}, {"rt2"})
 V2a == Vrf("v2", "65000:102", 102, {"rt2", "rt3"}, {"rt3"})      \* its routes are imported by v2 and V1b, not by V1a
 V2b == Vrf("v2", "65000:102", 112, {"rt1"}, {"rt1", "rt2", "rt3"})
 V2c == Vrf("v2", "65000:202", 122, {"rt2"}, {"rt1"})             \* v2 re-created under another RD
+(* v2 configured with the RD of v1 (nothing forbids it) and an import set overlapping v1's: the two VRFs are
+   different VRFs whatever their RDs say (alphabet "twin" only; no routes are injected into twins: which VRF
+   a locally originated VPN route belongs to is then undefined) *)
+V2d == Vrf("v2", "65000:101", 132, {"rt1", "rt3"}, {"rt2"})
 VrfPoolAll == {V1a, V1b, V2a, V2b, V2c}
 
 (* VPN routes of N2: k1, k2 have distinct RD and prefix; k3 has the RD of k2 and the IP prefix of
